@@ -48,7 +48,9 @@ class C13(Prop):
                'arithmetic and the moment the master declares the slave offline are not modelled']
     ASSUMPTIONS = ['the slave stays reachable while the master pushes the pending data (an outage during the push '
                    'itself loses the edit: apply_provisioning clears the pending sets whatever the outcome)',
-                   'no master restart while edits are pending', 'request latency below the request timeouts']
+                   'master restarts are generated only while device-level edits (device attributes, webhooks, reverse) '
+                   'are pending: a restart while PORT edits are pending loses them (known finding C13-restart-port-edits)',
+                   'request latency below the request timeouts']
 
     def setup(self):
         from harness.simslave_c12 import Hub
@@ -91,6 +93,28 @@ class C13(Prop):
             'steps': [['rattr', 'p1', 'unit', 'V'], ['wait', 0.06], ['radd', 'x2', 'number', 5], ['rvalue', 'p2', False],
                       ['check'], ['down'], ['await_offline'], ['mattr', 'p1', 'display_name', 'k'], ['wait', 5], ['up'],
                       ['await_online'], ['check']]})
+        one = [{'id': 'p1', 'type': 'number', 'value': 5, 'writable': True, 'enabled': True}]
+        # the answer to the webhooks push is lost / the reverse push is refused: still sent once, nothing pending after
+        for mode in ('listen', 'poll'):
+            out.append({'mode': mode, 'latency': 0.01, 'fail': 'refused', 'poll': 2, 'ports': one, 'steps': [
+                ['down'], ['await_offline'], ['mwebhooks', 'enabled', True], ['mreverse', 'enabled', True],
+                ['rdrop', 'webhooks'], ['rfail', 'reverse'], ['wait', 3], ['up'], ['await_online'], ['check'],
+                ['down'], ['await_offline'], ['wait', 3], ['up'], ['await_online'], ['check']]})
+        # master restart while a device edit is pending: still pending afterwards, pushed once
+        for mode in ('listen', 'poll'):
+            out.append({'mode': mode, 'latency': 0.01, 'fail': 'refused', 'poll': 2, 'ports': one, 'steps': [
+                ['down'], ['await_offline'], ['mdev', 'display_name', 'Hall'], ['mwebhooks', 'timeout', 7], ['restart'],
+                ['wait', 10], ['up'], ['await_online'], ['check']]})
+        # flapping link + restart: the pushes are acknowledged, the refresh fails, the master restarts during the
+        # following outage: what has been pushed must not be pending (and pushed) again
+        out.append({'mode': 'listen', 'latency': 0.05, 'fail': 'refused', 'poll': 2, 'ports': one, 'steps': [
+            ['down'], ['await_offline'], ['mdev', 'display_name', 'Hall'], ['wait', 2], ['up'],
+            ['when', 'push', 0.075, [['flapdown']]], ['await_offline'], ['restart'], ['wait', 5], ['flapup'],
+            ['await_online'], ['check']]})
+        # KNOWN FINDING C13-restart-port-edits: a master restart while PORT edits are pending loses them
+        out.append({'mode': 'listen', 'latency': 0.01, 'fail': 'refused', 'poll': 2, 'ports': one, 'steps': [
+            ['down'], ['await_offline'], ['mattr', 'p1', 'display_name', 'edited'], ['mvalue', 'p1', 42], ['wait', 3],
+            ['restart'], ['wait', 5], ['up'], ['await_online'], ['check']]})
         return out
 
     def gen(self, rng, tier):
@@ -145,6 +169,42 @@ class C13(Prop):
                 if rng.random() < 0.3:
                     steps.append(['wait', rng.choice([0.01, 0.2, 1, 3])])
 
+        def dev_edits(k):
+            for _ in range(k):
+                r = rng.random()
+                if r < 0.5:
+                    n, vals = rng.choice(DEV_EDITS[:2])
+                    steps.append(['mdev', n, rng.choice(vals)])
+                else:
+                    steps.append([rng.choice(['mwebhooks', 'mreverse']), rng.choice(['enabled', 'timeout']),
+                                  rng.choice([True, 7, 20])])
+
+        special = rng.random()
+        if special < 0.12:
+            # master restarts (device-level edits only: see ASSUMPTIONS) at arbitrary points of an outage, optionally
+            # with a flapping link: pushes acknowledged, refresh cut, restart during the following outage
+            steps.append(['check'])
+            steps += [['down'], ['await_offline']]
+            dev_edits(rng.randint(1, 3))
+            if rng.random() < 0.5:
+                steps.append(['restart'])
+                if rng.random() < 0.5:
+                    dev_edits(1)
+            steps.append(['wait', rng.choice([1, 10, 60])])
+            steps.append(['up'])
+            if mode == 'listen' and rng.random() < 0.7:
+                npush = 3          # at most PATCH /device, PUT /webhooks, PUT /reverse
+                steps.append(['when', 'push', round(case['latency'] * (2 * npush - 0.5), 4), [['flapdown']]])
+                steps.append(['await_offline'])
+                if rng.random() < 0.8:
+                    steps.append(['restart'])
+                steps.append(['wait', rng.choice([1, 8])])
+                steps.append(['flapup'])
+            steps += [['await_online'], ['check']]
+            if rng.random() < 0.5:
+                steps += [['restart'], ['wait', 2], ['await_online'], ['check']]
+            case['steps'] = steps
+            return case
         remote(rng.randint(0, 3))
         if rng.random() < 0.3:
             edits(rng.randint(1, 2), False)
@@ -159,6 +219,11 @@ class C13(Prop):
             rng.shuffle(seq)
             for x in seq:
                 (edits if x == 'E' else remote)(1, True) if x == 'E' else remote(1)
+            if rng.random() < 0.25:
+                # a push that the device refuses, or applies without the master ever seeing the answer
+                targets = [st[1] for st in steps if st[0] in ('mattr', 'mvalue')][-3:] + ['device', 'webhooks', 'reverse']
+                for _ in range(rng.randint(1, 2)):
+                    steps.append([rng.choice(['rfail', 'rdrop']), rng.choice(targets)])
             steps.append(['wait', rng.choice([1, 5, 20, 60, 120, 250])])
             steps.append(['up'])
             steps.append(['await_online'])
@@ -206,6 +271,22 @@ class C13(Prop):
         return fail, {'tags': sorted(tags), 'key': key, 'observed': observed}
 
     def known_match(self, finding, case, failure):
+        # C13-restart-port-edits: a master restart between an accepted offline PORT edit and the reconnect; the edit is
+        # then never pushed and stays reported as pending
+        if finding.get('id') != 'C13-restart-port-edits' or failure.kind != 'property':
+            return False
+        if failure.where not in ('pushed-once', 'value-pushed-once', 'nothing-pending'):
+            return False
+        down = pending = False
+        for st in case['steps']:
+            if st[0] == 'down':
+                down = True
+            elif st[0] == 'up':
+                down = pending = False
+            elif st[0] in ('mattr', 'mvalue') and down:
+                pending = True
+            elif st[0] == 'restart' and pending:
+                return True
         return False
 
 
